@@ -342,6 +342,9 @@ class Runner:
             raise OutOfSubset('chained assignment')
         tgt = s.targets[0]
         want = None
+        if isinstance(tgt, ast.Name) and tgt.id == '_':
+            self.ex.ev(s.value, st)          # `_ = expr`: evaluated (for its safety obligations) and discarded
+            return [Outcome(st, 'next')]
         if isinstance(tgt, ast.Name):
             want = self.ex.declared(tgt.id)
             if want is None and tgt.id in st.env and st.env[tgt.id].ty not in (T.EMPTYDICT, T.EMPTYSEQ, T.NONE):
@@ -803,7 +806,9 @@ class Runner:
                                 return True
                             cm = S.CLASSES.get(a)
                             return bool(cm) and any(related(x, b) for x in cm.bases)
-                        if not (related(recv_cls, ccls) or related(ccls, recv_cls)):
+                        # the call itself is resolved to the contract of the receiver's static class or of one of its
+                        # bases (resolve_contract walks UP); contracts of subclasses are different, more specific views
+                        if not related(recv_cls, ccls):
                             continue
                     if c.qual.split('.')[-1] == nm or c.qual == nm or c.qual == (nm or '') + '.__init__':
                         for m in c.modifies:
